@@ -72,7 +72,7 @@ func seqCall(op SeqOp) seqHeld {
 	var h seqHeld
 	switch op.Kind {
 	case "enc", "rt":
-		h.dataIn = append([]byte{}, op.Data...)
+		h.dataIn = ref.Canary(op.Data)
 		h.enc = bscript.EncodeBIP276(bscript.BIP276{Prefix: op.Prefix, Version: op.Version, Network: op.Network, Data: h.dataIn})
 		if op.Kind == "rt" {
 			h.dec, h.derr = bscript.DecodeBIP276(h.enc)
@@ -92,6 +92,9 @@ func seqVerify(ctx *pbt.Ctx, when string, i int, op SeqOp, h seqHeld) error {
 	case "enc", "rt":
 		if !bytes.Equal(h.dataIn, op.Data) {
 			return fmt.Errorf("%s: EncodeBIP276 changed the payload slice it was given: %x became %x", at, []byte(op.Data), h.dataIn)
+		}
+		if ref.CanaryDamaged(h.dataIn) {
+			return fmt.Errorf("%s: EncodeBIP276 wrote into the spare capacity behind the payload slice it was given (%x)", at, []byte(op.Data))
 		}
 		want := ref.EncodeBIP276(ref.BIP276{Prefix: op.Prefix, Version: op.Version, Network: op.Network, Data: op.Data})
 		if h.enc != want {
@@ -399,7 +402,7 @@ func checkBufs(ctx *pbt.Ctx, c Bufs) error {
 			ctx.Discard("outside domain")
 			return nil
 		}
-		bufs[i] = make([]byte, n)
+		bufs[i] = ref.Canary(make([]byte, n)) // a window onto a longer array, as a script read out of a serialised buffer is
 	}
 	type held struct {
 		what string
@@ -421,6 +424,9 @@ func checkBufs(ctx *pbt.Ctx, c Bufs) error {
 			b := bufs[k]
 			fillInPlace(b, op.Fill) // same slice, same length, new contents
 			text := bscript.EncodeBIP276(bscript.BIP276{Prefix: op.Prefix, Version: op.Version, Network: op.Network, Data: b})
+			if ref.CanaryDamaged(b) {
+				return fmt.Errorf("call %d (enc from buffer %d, %d bytes): EncodeBIP276 wrote behind the end of the payload slice, into the array the slice is a window of", i, k, len(b))
+			}
 			kept = append(kept, held{what: fmt.Sprintf("call %d (enc from buffer %d, %d bytes)", i, k, len(b)), text: text,
 				want: ref.BIP276{Prefix: op.Prefix, Version: op.Version, Network: op.Network, Data: append([]byte{}, b...)}, l25b: true})
 			if prev, ok := lastFill[k]; ok && prev != string(b) {
